@@ -10,8 +10,8 @@
                                   quadratic insertion of the association-list model is too slow
      F name | e , e , ..          FstDictionary::new(e..)                                -> "n <word_count>"
      G name | e , e , ..          the same for a list that is already strictly sorted with pairwise distinct
-                                  ids (checked here / monitored): sort and dedup are the identity
-                                  (wsort_sorted, wdedup_strict) and the word map is built directly
+                                  ids (sortedness checked here with the extracted adj_sorted, distinct ids
+                                  monitored): fst_new_bulk (Proofs/DictProofs.v)
      X name | child child ..      MergedDictionary of the named children                 -> "n <word_count>"
      C name | q                   contains / exact / metadata / canonical / from_id      -> "c=_ e=_ m=_ k=_ i=_"
      W name                       words_iter, sorted                                     -> ...
@@ -135,10 +135,7 @@ let () =
           Printf.printf "n %d\n" (int_of_nat ops.d_count)
       | 'G', [name; es] ->
           let ws = parse_entries es in
-          let rec strict = function
-            | (a, _) :: (((b, _) :: _) as rest) -> text_leb a b && not (text_eqb a b) && strict rest
-            | _ -> true in
-          if not (strict ws) then failwith "G: entries not strictly sorted";
+          if not (adj_sorted ws) then failwith "G: entries not sorted";
           let f = { f_full = direct_map ws; f_words = ws } in
           let ops = fst_ops is_lower lower stream f in
           Hashtbl.replace dicts name (KF f, ops);
